@@ -14,13 +14,6 @@ from extract import *
 SHORT = 'ops'
 
 ENV = '''
-#[derive(Debug, Clone, Copy, PartialEq, Eq, Structural)]
-pub struct StatusCode { pub bits: u32 }
-impl StatusCode {
-    pub const BadFilterOperandCountMismatch: StatusCode = StatusCode { bits: 0x80C3_0000 };
-    pub const BadFilterOperandInvalid: StatusCode = StatusCode { bits: 0x8049_0000 };
-    pub const BadFilterOperatorUnsupported: StatusCode = StatusCode { bits: 0x80C2_0000 };
-}
 // ---- payloads of a Variant that the operators do not look into
 pub struct UAString { pub x: u64 }
 pub type XmlElement = UAString;
@@ -104,6 +97,11 @@ pub fn in_list(object_id: &NodeId, operands: &[Operand], used_elements: &mut Has
 { unimplemented!() }
 // make_filter_operands (iterator adapters over Operand::try_from): all operands or an error
 pub uninterp spec fn spec_operands(f: Seq<ExtensionObject>) -> Result<Seq<Operand>, StatusCode>;
+// one operand per extension object (the adapters map each element)
+#[verifier::external_body]
+pub proof fn axiom_operands_len(f: Seq<ExtensionObject>)
+    ensures spec_operands(f) is Ok ==> spec_operands(f)->Ok_0.len() == f.len(),
+{}
 #[verifier::external_body]
 pub fn make_filter_operands(filter_operands: &[ExtensionObject]) -> (r: Result<Vec<Operand>, StatusCode>)
     ensures match spec_operands(filter_operands@) { Ok(s) => r is Ok && r->Ok_0@ == s && s.len() == filter_operands@.len(), Err(e) => r == Err::<Vec<Operand>, StatusCode>(e) },
@@ -315,7 +313,7 @@ SPEC = {
             (element.filter_operands is Some && element.filter_operands->Some_0@.len() > 0) ==> ({
                 let c = ctx(object_id, old(used_elements), elements, address_space);
                 match spec_operands(element.filter_operands->Some_0@) {
-                    Err(e) => r == Err::<Variant, StatusCode>(e),
+                    Err(e) => r is Err,       // (which of several faults of a clause is reported is not part of the property)
                     Ok(ops) => if ops.len() < needed(element.filter_operator) { r is Err } else {
                         // every operator is evaluated by its own semantics
                         match element.filter_operator {
@@ -465,6 +463,9 @@ impl From<%(t)s> for Variant { fn from(v: %(t)s) -> (r: Variant) { Variant::%(v)
             f[n] = t
         else:
             f[n] = splice_contract(t, SPEC[n][1], SPEC[n][0])
+            if n == 'evaluate' and variant == 'ops':
+                # the number of decoded operands is the number of operand objects, whether or not the code has decoded them yet
+                f[n] = splice_body_start(f[n], '    proof { if element.filter_operands is Some { axiom_operands_len(element.filter_operands->Some_0@); } }')
     f['type_id'] = splice_contract(norm_vis(clean_fn(va.impl_fn(r'^impl Variant \{', 'type_id'))), SPEC['type_id'][1], 'r')
     f['precedence'] = splice_contract(norm_vis(clean_fn(vt.impl_fn(r'^impl VariantTypeId \{', 'precedence'))), SPEC['precedence'][1], 'r')
     types = '\n'.join([
@@ -479,6 +480,7 @@ impl From<%(t)s> for Variant { fn from(v: %(t)s) -> (r: Variant) { Variant::%(v)
     a = Asm()
     a.add('use vstd::prelude::*;\n' + macro_def(op, 'compare_values') + '\n' + macro_def(op, 'bitwise_operation') + '\nverus! {\nglobal size_of usize == 8;\n', 'prelude', 'env')
     a.add(norm_vis(types), 'types', 'env')
+    a.add(status_code_struct(manifest), 'status codes', 'env')      # every status code of the real file (D14)
     a.add(env + FLOATS_FREE, 'env', 'env')
     a.add({'ops': VALUE_OF_ENV, 'rec': EVALUATE_ENV, 'term': TERM_ENV}[variant], 'env2', 'env')
     a.add('impl Variant {')
